@@ -1309,6 +1309,8 @@ def std_model(I, p, fr, t, args):
             return v if v is not None else "diverge"
         if n == "contains_key" and _concrete(a1):
             return d0.has(a1)
+        if n == "entry" and _concrete(a1):
+            return Adt("MAPENTRY", None, {"map": d0, "key": a1})
         if n == "remove" and _concrete(a1):
             h = _hkey(a1)
             v = d0.vals.pop(h, None)
@@ -1324,6 +1326,21 @@ def std_model(I, p, fr, t, args):
             return Iter([v for _, v in d0.ordered(I.fx)])
         if n in ("iter", "iter_mut", "into_iter"):
             return Iter([Adt(None, None, {"0": k, "1": v}) for k, v in d0.ordered(I.fx)])
+    if isinstance(d0, Adt) and d0.path == "MAPENTRY" and n in ("or_insert_with", "or_insert", "or_default", "key"):
+        m_, k_ = d0.fields["map"], d0.fields["key"]
+        if n == "key":
+            return k_
+        if m_.has(k_):
+            return m_.get(k_)
+        if n == "or_insert_with" and len(args) > 1 and isinstance(args[1], FnVal):
+            v_ = I.call_value(args[1], [], getattr(fr, "depth", 0))
+        elif n == "or_insert" and len(args) > 1:
+            v_ = I.deref(args[1])
+        else:
+            dty_ = fr.f["locals"][t["dest"]["l"]]["ty"] if t.get("dest") else ""
+            v_ = Vec() if "Vec<" in dty_ else (0 if dty_.endswith(("usize", "i64", "u64", "i32", "u32")) else Unknown("or_default"))
+        m_.put(k_, v_)
+        return v_
     if n in ("split_at", "split_at_mut") and isinstance(d0, Vec) and len(args) > 1 and isinstance(I.deref(args[1]), int) and c.startswith("core::slice::"):
         k_ = I.deref(args[1])
         if k_ > len(d0.items):
